@@ -23,6 +23,6 @@ rc=$?
 if [ $rc -eq 1 ]; then echo "MUTANT $name on $prop: DETECTED ($(grep -m1 -E 'failure in|REPLAY-FAIL|process crash' "$out/log" | cut -c1-220))";
 elif [ $rc -eq 0 ]; then echo "MUTANT $name on $prop: MISSED"; else echo "MUTANT $name on $prop: INCONCLUSIVE rc=$rc"; tail -5 "$out/log"; fi
 git -C /repo worktree remove --force "$wt"
-rm -rf "$out" /verif/.work/mut-$name-$$
+[ -n "${KEEP:-}" ] && cp "$out/log" /tmp/mutlog-$name.txt; rm -rf "$out" /verif/.work/mut-$name-$$
 
 exit 0
